@@ -132,6 +132,15 @@ OPEN_ROOTS = {
                                       "  var get = f.call({H});", "  f = nil;", "  churn({n});", "  var l = get();", "  return {P};", "}}",
                                       'print(("ev", {g}, r{g}()));'],
 }
+OPEN_ROOTS.update({
+    # the captured variable's scope is left by an exception (unwinding must close the captured variable)
+    "capture_in_scope_left_by_exception": ["fn r{g}() {{", "  var get = nil;", "  try {{ var l = {H}; get = || {{ return l; }}; throw 1; }} catch e {{ churn(1); }}",
+                                           "  churn({n});", "  var l = get();", "  return {P};", "}}", 'print(("ev", {g}, r{g}()));'],
+    "capture_in_callee_left_by_exception": ["var get{g} = nil;", "fn t{g}() {{ var l = {H}; get{g} = || {{ return l; }}; var pad = [1]; throw pad; }}",
+                                            "fn r{g}() {{", "  try {{ t{g}(); }} catch e {{ churn(1); }}", "  churn({n});", "  var l = get{g}();", "  return {P};", "}}",
+                                            'print(("ev", {g}, r{g}()));'],
+}
+)
 ROOTS.update(OPEN_ROOTS)
 GEN_ROOTS = sorted(ROOTS)
 
@@ -293,7 +302,7 @@ class C01:
     LEVEL = "exploration"
     TIMEOUT = 40.0
     RULE = ("case = generated heap-shape program: 3-9 gadgets, each either a retention chain root -> e1..e4 -> target (19 edge kinds "
-            "x 17 target kinds x 18 root kinds; the chain is the only path to the target; allocation churn between building and "
+            "x 17 target kinds x 20 root kinds; the chain is the only path to the target; allocation churn between building and "
             "reading it back) or one of 39 operations that make the interpreter hold fresh unreferenced objects mid-operation "
             "(10 of them failing, so that the error object is allocated meanwhile); every case is executed under never-collect, "
             "collect-at-every-allocation and a PRNG collection tape (rate 1/2, 1/8 or 1/64), all with quarantine. non-trivial = the "
